@@ -1,16 +1,16 @@
 SPECIFICATION Rounds
 CONSTANTS
-  Nodes = {1, 2, 3}
+  Nodes = {1, 2, 3, 4}
   Local = 1
   BugMaintRebalance = FALSE
   RuleShapes = {}
   EcCnrRepLen = 0
   EcLens = {}
   Families = {}
-  N = 3
-  Reps = {1, 2, 3}
-  RuleCounts = {1}
-  ListLens = {1, 2, 3}
+  N = 4
+  Reps = {1, 2}
+  RuleCounts = {2}
+  ListLens = {1, 2}
   MaxRounds = 3
 INVARIANTS NeverEmpty TaskOK ConvergedInTime
 CHECK_DEADLOCK FALSE
